@@ -36,6 +36,7 @@ class PiecewiseFit:
         self.T_scale = T_scale
         self.rms = None
         self.maxabs = None
+        self.resid = None                 # fit - data, in the order of the data
         self.n_points = []
 
     def segment(self, T):
@@ -82,6 +83,7 @@ def fit(family, T, Cp, breaks=()):
         c = sol / norms
         out.coefs.append(c)
         resid[mask] = A @ c - Cp[mask]
+    out.resid = resid
     out.rms = float(np.sqrt(np.mean(resid ** 2)))
     out.maxabs = float(np.max(np.abs(resid)))
     return out
